@@ -210,6 +210,15 @@ impl<'a> TagTrainer<'a> {
                         .to_int_unchecked::<i32>()
                 };
             }
+            #[cfg(feature = "verif-hooks")]
+            for &cls in model.labels() {
+                let cls = usize::try_from(cls).unwrap();
+                let b = bias[class_offset + cls];
+                let category = i;
+                crate::verif::with_trace(|t| t.tag_biases.push((token.clone(), category, cls, b)));
+            }
+            #[cfg(feature = "verif-hooks")]
+            let verif_category = i;
             for (feature, fid) in feature_ids {
                 match feature {
                     TagFeature::CharacterNgram(NgramFeature {
@@ -224,6 +233,19 @@ impl<'a> TagTrainer<'a> {
                             let weight = unsafe {
                                 (raw_weight / quantize_multiplier).to_int_unchecked::<i32>()
                             };
+                            #[cfg(feature = "verif-hooks")]
+                            crate::verif::with_trace(|t| {
+                                t.tag_weights.push((
+                                    token.clone(),
+                                    verif_category,
+                                    usize::try_from(cls).unwrap(),
+                                    crate::verif::VerifFeature::CharNgram {
+                                        ngram: ngram.to_string(),
+                                        rel_position: *rel_position,
+                                    },
+                                    weight,
+                                ))
+                            });
                             if weight == 0 {
                                 continue;
                             }
@@ -245,6 +267,19 @@ impl<'a> TagTrainer<'a> {
                             let weight = unsafe {
                                 (raw_weight / quantize_multiplier).to_int_unchecked::<i32>()
                             };
+                            #[cfg(feature = "verif-hooks")]
+                            crate::verif::with_trace(|t| {
+                                t.tag_weights.push((
+                                    token.clone(),
+                                    verif_category,
+                                    usize::try_from(cls).unwrap(),
+                                    crate::verif::VerifFeature::TypeNgram {
+                                        ngram: ngram.to_vec(),
+                                        rel_position: *rel_position,
+                                    },
+                                    weight,
+                                ))
+                            });
                             if weight == 0 {
                                 continue;
                             }
